@@ -568,14 +568,26 @@ impl Universe {
             (Ty::Seq(_, a), DV::L(xs)) | (Ty::Set(_, a), DV::L(xs)) | (Ty::Array(a, _), DV::L(xs)) | (Ty::Range(a), DV::L(xs)) => {
                 DV::L(xs.iter().map(|x| rec(a, x)).collect::<Result<_, _>>()?)
             }
-            (Ty::Map(_, a, b), DV::L(xs)) => DV::L(
-                xs.iter()
+            (Ty::Map(kind, a, b), DV::L(xs)) => {
+                let pairs: Vec<DV> = xs
+                    .iter()
                     .map(|kv| {
                         let kv = kv.l();
                         Ok(DV::L(vec![rec(a, &kv[0])?, rec(b, &kv[1])?]))
                     })
-                    .collect::<Result<_, EncErr>>()?,
-            ),
+                    .collect::<Result<_, EncErr>>()?;
+                if *kind == MapKind::Hash {
+                    // keys that become equal at this version (fields absent there take their default):
+                    // which entry survives depends on the hash map's iteration order when saving
+                    for (i, p) in pairs.iter().enumerate() {
+                        let (k, val) = (self.canon(a, &p.l()[0]), &p.l()[1]);
+                        if pairs[..i].iter().any(|q| self.canon(a, &q.l()[0]) == k && &q.l()[1] != val) {
+                            return Err(EncErr::NoExp("hash map keys collide at this version: the surviving value is unspecified".into()));
+                        }
+                    }
+                }
+                DV::L(pairs)
+            }
             (Ty::Tuple(ts), DV::L(xs)) => DV::L(ts.iter().zip(xs).map(|(t, x)| rec(t, x)).collect::<Result<_, _>>()?),
             (Ty::Wrap(_, a), _) => rec(a, dv)?,
             (Ty::Def(i, args), _) => {
@@ -588,6 +600,16 @@ impl Universe {
                         if !f.is_live() {
                             if f.on_wire(v) && f.removed == RemovedKind::Removed {
                                 return Err(EncErr::WriterRejects(format!("Removed field {} at version {}", f.name, v)));
+                            }
+                            if f.on_wire(v) && f.removed == RemovedKind::AbiRemoved {
+                                // the constructed value is written at this version: it must itself be
+                                // something the documented writer can produce there (it may contain a
+                                // definition with a Removed<T> or type-changed field)
+                                let val = match &f.abi_ctor {
+                                    Some((_, dv)) => dv.clone(),
+                                    None => self.default_dv(&fty),
+                                };
+                                self.after_reload(&fty, v, &val)?;
                             }
                             continue;
                         }
